@@ -62,9 +62,10 @@ static void run_vec(Ctx& ctx, const Item& it, bool thorough) {
   }
   std::vector<int> aliases = op.nin == 1 ? std::vector<int>{AL_RES_A, AL_RES_A_COMPACT} : std::vector<int>{AL_RES_A, AL_RES_B, AL_RES_A_B, AL_RES_A_COMPACT};
   std::vector<uint64_t> strides = {N, N + 3};
+  const std::vector<uint64_t> SZV = N >= 2048 ? std::vector<uint64_t>{0, 1, 3} : std::vector<uint64_t>{0, 1, 2, 3, 7};  // thinner size box in the large-N layer
   std::set<std::string> seen;
   for (int al : aliases)
-    for (uint64_t rs : std::vector<uint64_t>{0, 1, 2, 3, 7}) for (uint64_t as : std::vector<uint64_t>{0, 1, 2, 3, 7}) for (uint64_t bs : (op.nin >= 2 ? std::vector<uint64_t>{0, 1, 2, 3, 7} : std::vector<uint64_t>{0}))
+    for (uint64_t rs : SZV) for (uint64_t as : SZV) for (uint64_t bs : (op.nin >= 2 ? SZV : std::vector<uint64_t>{0}))
       for (uint64_t sl : strides) for (uint64_t osl : strides) for (int64_t p : ps) {
         VecShape s; s.N = N; s.rs = rs; s.as = as; s.bs = bs; s.p = p; s.alias = al;
         // aliased operands share `sl`; the other operand uses `osl`
@@ -88,8 +89,8 @@ static void run_norm(Ctx& ctx, const Item& it) {
   const uint64_t N = it.N;
   MODULE* mod = get_module(N, FFT64, it.cfg);
   for (int variant = 0; variant < 3; ++variant)
-    for (uint64_t k : {1, 2, 7, 19, 31, 52, 62})
-      for (uint64_t rs : {0, 1, 2, 3, 9}) for (uint64_t as : {0, 1, 2, 3, 9})
+    for (uint64_t k : (N >= 2048 ? std::vector<uint64_t>{2, 19, 62} : std::vector<uint64_t>{1, 2, 7, 19, 31, 52, 62}))
+      for (uint64_t rs : (N >= 2048 ? std::vector<uint64_t>{1, 3} : std::vector<uint64_t>{0, 1, 2, 3, 9})) for (uint64_t as : (N >= 2048 ? std::vector<uint64_t>{1, 3} : std::vector<uint64_t>{0, 1, 2, 3, 9}))
         for (uint64_t sl : {N, N + 3}) for (int ds = 0; ds < 2; ++ds) {
           NormShape s; s.N = N; s.k = k; s.rs = rs; s.as = as; s.variant = variant; s.dataset = ds; s.alias = 1;
           s.rsl = s.asl = (variant == 0 ? sl : N);
@@ -171,6 +172,7 @@ int main(int argc, char** argv) {
   std::vector<Item> items;
   std::vector<uint64_t> Ns = {2, 4, 8, 16, 32};
   if (args.thorough()) for (uint64_t n : {64, 256, 1024, 4096}) Ns.push_back(n);
+  else for (uint64_t n : {2048, 16384}) Ns.push_back(n);  // sparse large-N layer of the quick tier
   auto cf = cfgs(args.thorough());
   for (uint64_t N : Ns) for (auto& c : cf) {
     for (int op = 0; op < NVECOPS; ++op) for (int mt = 0; mt < 2; ++mt) {
